@@ -144,6 +144,17 @@ fn step_body(kind: u8, own: usize, d: [u8; N], allow: u8) -> usize {
     let vote = mk_vote(&fx, 0, kind, hash);
     let (certs, _events, _repairs) = st.add_vote(vote, Stake::new(stakes[0]));
 
+    // the admitted vote is on record (duplicates and conflicts are decided from the record: C04), also when the
+    // certificate of its class already exists
+    let recorded = match kind {
+        0 => st.votes.notar[0].is_some(),
+        1 => st.votes.notar_fallback[0].contains_key(&block_hash(hash)),
+        2 => st.votes.skip[0].is_some(),
+        3 => st.votes.skip_fallback[0].is_some(),
+        _ => st.votes.finalize[0].is_some(),
+    };
+    vcheck!(recorded, "an admitted vote was not recorded: later repeats or conflicting votes of this validator would go unnoticed");
+
     // --- reference -------------------------------------------------------------------------------
     let mut held1 = held;
     held1[0] = held[0].with(kind, hash);
